@@ -34,6 +34,8 @@ pub struct Obs {
   pub unspecified: u64,
   /// a cap (poll / horizon) was hit inside the execution
   pub capped: bool,
+  /// the library panicked in a job where that is not this property's business
+  pub aborted_by_panic: bool,
   /// free-form lines for replay output
   pub trace: Vec<String>,
   pub want_trace: bool,
@@ -60,6 +62,9 @@ pub struct Job {
   pub name: String,
   pub dev_bound: u32,
   pub max_execs: u64,
+  /// is a panic escaping from the library a violation of *this* property?
+  /// (C05, C10: yes; elsewhere the execution is counted as aborted)
+  pub panic_is_violation: bool,
   pub run: Box<dyn Fn(&mut Chooser, &mut Obs) + Send + Sync>,
 }
 
@@ -68,10 +73,14 @@ impl Job {
     name: impl Into<String>,
     run: impl Fn(&mut Chooser, &mut Obs) + Send + Sync + 'static,
   ) -> Job {
-    Job { name: name.into(), dev_bound: 0, max_execs: u64::MAX, run: Box::new(run) }
+    Job { name: name.into(), dev_bound: 0, max_execs: u64::MAX, panic_is_violation: false, run: Box::new(run) }
   }
   pub fn devs(mut self, d: u32) -> Job {
     self.dev_bound = d;
+    self
+  }
+  pub fn panics_violate(mut self) -> Job {
+    self.panic_is_violation = true;
     self
   }
   pub fn cap(mut self, n: u64) -> Job {
@@ -83,6 +92,7 @@ impl Job {
 #[derive(Clone, Debug)]
 pub struct ClassRec {
   pub count: u64,
+  pub job_idx: usize,
   pub job: String,
   pub choices: Vec<u32>,
   pub detail: String,
@@ -98,6 +108,9 @@ pub struct Report {
   pub checks: u64,
   pub unspecified: u64,
   pub capped_execs: u64,
+  pub aborted_execs: u64,
+  pub hung_execs: u64,
+  pub hung: Vec<String>,
   pub samples: Vec<Value>,
   pub machinery: Vec<String>,
   pub extra: BTreeMap<String, Value>,
@@ -111,8 +124,9 @@ impl Report {
       match self.classes.get_mut(&k) {
         Some(e) => {
           e.count += v.count;
-          if v.choices.len() < e.choices.len() {
+          if (v.choices.len(), v.job_idx) < (e.choices.len(), e.job_idx) {
             e.job = v.job;
+            e.job_idx = v.job_idx;
             e.choices = v.choices;
             e.detail = v.detail;
           }
@@ -127,6 +141,9 @@ impl Report {
     self.checks += o.checks;
     self.unspecified += o.unspecified;
     self.capped_execs += o.capped_execs;
+    self.aborted_execs += o.aborted_execs;
+    self.hung_execs += o.hung_execs;
+    self.hung.extend(o.hung);
     for s in o.samples {
       if self.samples.len() < 12 {
         self.samples.push(s);
@@ -164,10 +181,12 @@ fn run_one(job: &Job, ch: &mut Chooser, want_trace: bool) -> Obs {
     let msg = LAST_PANIC.with(|p| p.borrow().clone());
     if msg.contains("MACHINERY") {
       obs.fail("machinery", msg);
-    } else {
+    } else if job.panic_is_violation {
       // keep the class stable: strip addresses / numbers after the location
       let short: String = msg.chars().take(160).collect();
       obs.fail(format!("panic:{}", panic_class(&short)), short);
+    } else {
+      obs.aborted_by_panic = true;
     }
   }
   obs
@@ -182,93 +201,190 @@ fn panic_class(msg: &str) -> String {
   format!("{text}@{file}")
 }
 
-/// Run all jobs on `threads` workers; every job's choice tree is enumerated
-/// completely (or up to its cap, which is reported).
-pub fn run_jobs(jobs: Vec<Job>, threads: usize) -> Report {
-  let next = AtomicUsize::new(0);
-  let total = Mutex::new(Report::default());
-  let jobs = &jobs;
-  std::thread::scope(|s| {
-    for _ in 0..threads.max(1) {
-      s.spawn(|| {
-        let mut rep = Report::default();
-        loop {
-          let i = next.fetch_add(1, Ordering::SeqCst);
-          if i >= jobs.len() {
-            break;
-          }
-          let job = &jobs[i];
-          rep.jobs += 1;
-          let mut first = true;
-          let mut n_exec: u64 = 0;
-          let stats = explore_all(job.dev_bound, job.max_execs, |ch| {
-            let obs = run_one(job, ch, false);
-            n_exec += 1;
-            if obs.delivered > 0 {
-              rep.delivered_execs += 1;
-            }
-            rep.outcomes.insert(obs.outcome);
-            rep.checks += obs.checks;
-            rep.unspecified += obs.unspecified;
-            if obs.capped {
-              rep.capped_execs += 1;
-            }
-            // determinism self-check on a fixed sample of executions
-            if n_exec % 4096 == 1 {
-              let mut ch2 = Chooser::new(ch.choices(), u32::MAX);
-              let o2 = run_one(job, &mut ch2, false);
-              if o2.outcome != obs.outcome || ch2.choices() != ch.choices() {
-                rep.machinery.push(format!(
-                  "non-deterministic replay in job {} choices {:?}",
-                  job.name,
-                  ch.choices()
-                ));
-              }
-            }
-            if first && i % 97 == 0 && rep.samples.len() < 12 {
-              first = false;
-              let mut ch3 = Chooser::new(ch.choices(), u32::MAX);
-              ch3.want_labels = true;
-              let o3 = run_one(job, &mut ch3, true);
-              rep.samples.push(json!({
-                "scenario": job.name,
-                "choices": ch.choices(),
-                "steps": ch3.labels,
-                "trace": o3.trace,
-              }));
-            }
-            for v in obs.viol {
-              if v.class == "machinery" {
-                rep.machinery.push(format!("{}: {}", job.name, v.detail));
-                continue;
-              }
-              let choices = ch.choices();
-              match rep.classes.get_mut(&v.class) {
-                Some(e) => {
-                  e.count += 1;
-                  if choices.len() < e.choices.len() {
-                    e.job = job.name.clone();
-                    e.choices = choices;
-                    e.detail = v.detail;
-                  }
-                }
-                None => {
-                  rep.classes.insert(
-                    v.class.clone(),
-                    ClassRec { count: 1, job: job.name.clone(), choices, detail: v.detail },
-                  );
-                }
-              }
-            }
-            true
-          });
-          rep.stats.add(&stats);
-        }
-        total.lock().unwrap().merge(rep);
-      });
+const HANG_SECS: u64 = 6;
+
+#[derive(Default)]
+struct Beat {
+  active: bool,
+  dead: bool,
+  finished: bool,
+  job_idx: usize,
+  prefix: Vec<u32>,
+  started: Option<Instant>,
+}
+
+struct Shared {
+  jobs: Vec<Job>,
+  next: AtomicUsize,
+  total: Mutex<Report>,
+  beats: Mutex<Vec<std::sync::Arc<Mutex<Beat>>>>,
+}
+
+fn record_class(rep: &mut Report, class: String, i: usize, job: &str, choices: Vec<u32>, detail: String) {
+  match rep.classes.get_mut(&class) {
+    Some(e) => {
+      e.count += 1;
+      if (choices.len(), i) < (e.choices.len(), e.job_idx) {
+        e.job = job.to_string();
+        e.job_idx = i;
+        e.choices = choices;
+        e.detail = detail;
+      }
     }
+    None => {
+      rep.classes.insert(
+        class,
+        ClassRec { count: 1, job_idx: i, job: job.to_string(), choices, detail },
+      );
+    }
+  }
+}
+
+fn worker(sh: std::sync::Arc<Shared>, beat: std::sync::Arc<Mutex<Beat>>) {
+  loop {
+    let i = sh.next.fetch_add(1, Ordering::SeqCst);
+    if i >= sh.jobs.len() {
+      break;
+    }
+    let job = &sh.jobs[i];
+    let mut rep = Report::default();
+    rep.jobs += 1;
+    let mut first = true;
+    let mut n_exec: u64 = 0;
+    let stats = explore_all(job.dev_bound, job.max_execs, |ch| {
+      {
+        let mut b = beat.lock().unwrap();
+        b.active = true;
+        b.job_idx = i;
+        b.prefix = ch.prefix().to_vec();
+        b.started = Some(Instant::now());
+      }
+      let obs = run_one(job, ch, false);
+      beat.lock().unwrap().active = false;
+      n_exec += 1;
+      if obs.delivered > 0 {
+        rep.delivered_execs += 1;
+      }
+      rep.outcomes.insert(obs.outcome);
+      rep.checks += obs.checks;
+      rep.unspecified += obs.unspecified;
+      if obs.capped {
+        rep.capped_execs += 1;
+      }
+      if obs.aborted_by_panic {
+        rep.aborted_execs += 1;
+      }
+      // determinism self-check on a fixed sample of executions
+      if n_exec % 4096 == 1 {
+        let mut ch2 = Chooser::new(ch.choices(), u32::MAX);
+        let o2 = run_one(job, &mut ch2, false);
+        if o2.outcome != obs.outcome || ch2.choices() != ch.choices() {
+          rep.machinery.push(format!(
+            "non-deterministic replay in job {} choices {:?}",
+            job.name,
+            ch.choices()
+          ));
+        }
+      }
+      if first && (n_exec == 2 || job.max_execs == 1) && i % 97 == 0 && rep.samples.len() < 12 {
+        first = false;
+        let mut ch3 = Chooser::new(ch.choices(), u32::MAX);
+        ch3.want_labels = true;
+        let o3 = run_one(job, &mut ch3, true);
+        rep.samples.push(json!({
+          "scenario": job.name,
+          "choices": ch.choices(),
+          "steps": ch3.labels,
+          "trace": o3.trace,
+        }));
+      }
+      for v in obs.viol {
+        if v.class == "machinery" {
+          rep.machinery.push(format!("{}: {}", job.name, v.detail));
+          continue;
+        }
+        record_class(&mut rep, v.class, i, &job.name, ch.choices(), v.detail);
+      }
+      true
+    });
+    rep.stats.add(&stats);
+    sh.total.lock().unwrap().merge(rep);
+  }
+  beat.lock().unwrap().finished = true;
+}
+
+fn spawn_worker(sh: &std::sync::Arc<Shared>) {
+  let beat = std::sync::Arc::new(Mutex::new(Beat::default()));
+  sh.beats.lock().unwrap().push(beat.clone());
+  let sh2 = sh.clone();
+  std::thread::Builder::new()
+    .stack_size(16 << 20)
+    .spawn(move || worker(sh2, beat))
+    .expect("spawn worker");
+}
+
+/// Run all jobs on `threads` workers; every job's choice tree is enumerated
+/// completely (or up to its cap, which is reported). A watchdog detects an
+/// execution that never returns (a real lock cycle in a `_threads` operator
+/// blocks its OS thread for good): the execution is recorded, its worker is
+/// abandoned and replaced.
+pub fn run_jobs(jobs: Vec<Job>, threads: usize) -> Report {
+  use std::sync::Arc;
+  let sh = Arc::new(Shared {
+    jobs,
+    next: AtomicUsize::new(0),
+    total: Mutex::new(Report::default()),
+    beats: Mutex::new(vec![]),
   });
-  total.into_inner().unwrap()
+  for _ in 0..threads.max(1) {
+    spawn_worker(&sh);
+  }
+  loop {
+    std::thread::sleep(std::time::Duration::from_millis(20));
+    let beats: Vec<_> = sh.beats.lock().unwrap().clone();
+    let mut all_done = true;
+    for b in beats {
+      let mut hang: Option<(usize, Vec<u32>)> = None;
+      {
+        let mut g = b.lock().unwrap();
+        if g.dead || g.finished {
+          continue;
+        }
+        all_done = false;
+        if g.active && g.started.map_or(false, |t| t.elapsed().as_secs() >= HANG_SECS) {
+          g.dead = true;
+          hang = Some((g.job_idx, g.prefix.clone()));
+        }
+      }
+      if let Some((i, prefix)) = hang {
+        let job = &sh.jobs[i];
+        {
+          let mut t = sh.total.lock().unwrap();
+          t.jobs += 1;
+          t.stats.capped = true;
+          t.hung_execs += 1;
+          if job.panic_is_violation {
+            record_class(
+              &mut t,
+              format!("hang:{}", job.name),
+              i,
+              &job.name,
+              prefix.clone(),
+              format!("execution did not return within {HANG_SECS}s (blocked for good); choices {prefix:?} then defaults"),
+            );
+          } else {
+            t.hung.push(format!("{} choices {:?}", job.name, prefix));
+          }
+        }
+        spawn_worker(&sh);
+      }
+    }
+    if all_done {
+      break;
+    }
+  }
+  let mut guard = sh.total.lock().unwrap();
+  std::mem::take(&mut *guard)
 }
 
 // ------------------------------------------------------------ known findings
@@ -378,6 +494,9 @@ pub fn finish(f: Finish, rep: &Report, jobs: &[(String, ())], t0: Instant) -> i3
     "max_depth": rep.stats.max_depth,
     "max_deviations_used": rep.stats.max_deviations,
     "executions_that_hit_a_cap": rep.capped_execs,
+    "executions_aborted_by_library_panic_not_judged_here": rep.aborted_execs,
+    "executions_that_never_returned": rep.hung_execs,
+    "never_returned_not_judged_here": rep.hung.iter().take(10).collect::<Vec<_>>(),
     "bounds": f.bounds,
     "violation_classes": class_json,
     "known_findings_hit": known_hits,
